@@ -527,7 +527,7 @@ class StreamRandom:
             raise ValueError("Sample larger than population or is negative")
         out = []
         for _ in range(k):
-            out.append(pop.pop(self.ctx.choose(self._n("sample"), len(pop))))
+            out.append(pop.pop(self.ctx.choose(self._n(f"sample{len(pop)}"), len(pop))))
         return out
 
     def choice(self, a, size=None, replace=True):
@@ -535,10 +535,10 @@ class StreamRandom:
 
         pop = list(a)
         if size is None:
-            return pop[self.ctx.choose(self._n("choice"), len(pop))]
+            return pop[self.ctx.choose(self._n(f"choice{len(pop)}"), len(pop))]
         out = []
         for _ in range(size):
-            i = self.ctx.choose(self._n("choice"), len(pop))
+            i = self.ctx.choose(self._n(f"choice{len(pop)}"), len(pop))
             out.append(pop[i] if replace else pop.pop(i))
         return np.array(out)
 
